@@ -27,6 +27,10 @@ def render(toks, rng, style):
         elif style == 1:
             out.append(t)
             out.append(rng.choice([" ", "\n", "\t", "  \n   "]))
+        elif style == 4:
+            # comments and line ends in the three conventions: LF, CR LF, and a bare CR
+            out.append(t)
+            out.append(rng.choice([" ", "\r", "\r\n", " # a comment < L > \r", " # c \r\n", "   # x\r\t", " # y\n"]))
         else:
             out.append(t)
             out.append(rng.choice([" ", "\n", " # a comment < L > \n", "   # x\n\t"]))
@@ -97,14 +101,14 @@ def run(ctx: Ctx):
     ctx.states = len(defs)
     ctx.transitions = len(defs) + sum(len(x["close"]) + len(x["unknown"]) for x in rej)
     rng = random.Random(ctx.seed + 19)
-    styles = [0, 1, 2, 3]
+    styles = [0, 1, 2, 3, 4]
     n = 0
     for d in defs:
         want = top(d["shape"])
         named_single = "NAMED" in d["toks"] and any(
             d["toks"][i] == "NAMED" and d["toks"][i + 1] == "<" and d["toks"][i + 2] != "L" and d["toks"][i + 4] == ">"
             for i in range(len(d["toks"]) - 4))
-        for st in (styles if not ctx.quick else rng.sample(styles, 2)):
+        for st in (styles if not ctx.quick else rng.sample(styles, 2) + ([4] if rng.random() < 0.5 else [])):
             text = render(d["toks"], rng, st)
             n += 1
             try:
@@ -142,7 +146,7 @@ def run(ctx: Ctx):
     ctx.sample({"rejected_mutant": rej[3]["close"][0]})
     ctx.exhaustive = True
     ctx.rule = ("definitions = every tree of depth <= 3 (width 3 at depth 2, width 2 at depth 3) over 4 data item names with/without list "
-                "names, distinct member keys (1884), each in 2-4 text layouts (white space, newlines, comments, compact); mutants = every "
+                "names, distinct member keys (1884), each in 2-5 text layouts (white space, newlines, comments ended by LF / CR LF / bare CR, compact); mutants = every "
                 "single missing '>' and every single unknown item name of the depth-2 and unnamed depth-3 definitions")
     ctx.assumptions += ["the generator stays inside what the document defines (no empty lists, distinct member keys, upper-case L)"]
     return ctx.finish()
